@@ -62,7 +62,7 @@ class FakeSocket:
 
     def connect_ex(self, addr):
         self.remote_addr = addr
-        if addr[0] in getattr(self.net, 'unreachable', ()):
+        if self.net.is_unreachable(addr[0]):
             self.refused = True          # no route: the connect fails on the spot (ENETUNREACH), nothing will ever arrive
             return 101
         self.net.connect(self, addr)
@@ -404,6 +404,16 @@ class Net:
         n = Node(self, name, host, port, coinstate, listen=listen, real_store=real_store)
         self.nodes.append(n)
         return n
+
+    def is_unreachable(self, host):
+        """no route: explicitly listed hosts, and multicast / broadcast IPv4 addresses (connect fails with ENETUNREACH)"""
+        if host in self.unreachable:
+            return True
+        try:
+            first = int(str(host).split('.')[0])
+        except ValueError:
+            return False
+        return 224 <= first <= 239 or str(host) == '255.255.255.255'
 
     def connect(self, sock, addr):
         target = self.listeners.get(tuple(addr))
